@@ -121,7 +121,7 @@ def jacobian_case(ctx, S, rng, kmax):
 
 
 def run(tier, seed):
-    ctx = core.Ctx(PROP, tier, seed, "proof", ["C12"])
+    ctx = core.Ctx(PROP, tier, seed, "proof", ["C12", "C10"])
     ctx.axioms = core.audit(ctx.modules)
     import pyqsp.sym_qsp_opt as S
     q = tier == "quick"
